@@ -39,7 +39,8 @@ class SessionRules(Harness):
                  "with up to two items per consultation); "
                  "F2 flags: 2 sessions x (1..2 steps), all placement/execution combinations, 2 agents; "
                  "F3 events: each built-in event (and a probe) in either of two sessions, first session without execution",
-        "thorough": "F1 with 2 steps for rate sym; F2 with 2 steps each; F3 with both halt lengths and 3-step sessions",
+        "thorough": "F1 all cap / rate combinations; F2 with a 2-step second session unless orders are placed in both sessions; "
+                    "F3 with first sessions of 2, 3 and 4 steps and a halt of length 2",
     }
     agreement_runs = 8
 
@@ -62,12 +63,12 @@ class SessionRules(Harness):
             for f1 in flags:
                 if f0 == f1:
                     continue
-                out.append({"fam": "flags", "sessions": [[f0[0], f0[1], 1], [f1[0], f1[1], 2 if tier == "thorough" else 1]]})
+                # (measured: two steps in the second session with orders placed in both sessions do not finish in 45 min)
+                n1 = 2 if tier == "thorough" and not (f0[0] and f1[0]) else 1
+                out.append({"fam": "flags", "sessions": [[f0[0], f0[1], 1], [f1[0], f1[1], n1]]})
         # F2b: a crossed book left by a no-execution session; in the execution session the accepted items are
         # cancels of (possibly unrelated) resting orders: a round must follow each of them
         out.append({"fam": "cancel-round", "n0": 2})
-        if tier == "thorough":
-            out.append({"fam": "cancel-round", "n0": 3})
         # F3: built-in events, first session without execution
         for ev in EVENTS:
             for where in (0, 1):
@@ -85,7 +86,7 @@ class SessionRules(Harness):
         out.append({"fam": "halt-two-targets", "L": 1})
         if tier == "thorough":
             out.append({"fam": "halt-then-noexec", "L": 2})
-            out.append({"fam": "events", "event": "halt", "where": 1, "n0": 4, "n1": 2, "L": 2})
+            out.append({"fam": "events", "event": "halt", "where": 1, "n0": 2, "n1": 2, "L": 2})
         return out
 
     # ------------------------------------------------------------------------------------------
